@@ -9,7 +9,21 @@
 #include <unistd.h>
 #include <sys/wait.h>
 #include "yaep.h"
-extern void *__libc_malloc (size_t); extern void *__libc_calloc (size_t, size_t); extern void *__libc_realloc (void *, size_t);
+/* under AddressSanitizer the requests go on to its allocator (which also fills fresh memory with 0xBE and finds wild / double frees and
+   uses after free on the error paths); without it to libc's */
+#if defined(__has_feature)
+#if __has_feature(address_sanitizer)
+#define BASE(f) __interceptor_##f
+const char *__asan_default_options (void) { return "detect_leaks=0:allocator_may_return_null=1"; }
+#endif
+#endif
+#ifndef BASE
+#define BASE(f) __libc_##f
+#endif
+#define __libc_malloc BASE (malloc)
+#define __libc_calloc BASE (calloc)
+#define __libc_realloc BASE (realloc)
+extern void *BASE (malloc) (size_t); extern void *BASE (calloc) (size_t, size_t); extern void *BASE (realloc) (void *, size_t);
 static long fail_at = -1, count;
 static int hit (void) { return fail_at >= 0 && ++count == fail_at; }
 /* fresh memory is filled with junk (0xBE), as a debugging allocator would: an element that is freed or used before it is
